@@ -87,7 +87,7 @@ var baseProfile = Profile{
 	Name: "mix", NReq: [2]int{3, 8}, PUnsafe: 0.12, PReqCC: 0.35, PVary: 0.3, PDate: 0.35, PSkew: 0.3,
 	PAge: 0.25, PBigNum: 0.05, PValidators: 0.6, PSWR: 0.2, PSIE: 0.15, PNoCache: 0.1, PMustReval: 0.15,
 	PHeuristic: 0.2, PErrReply: 0.1, PBodyFail: 0.0, PSpelling: 0.3, PLocation: 0.3, POnlyIfCached: 0.1,
-	PRange: 0.03, PConnHdr: 0.1, PCCSpell: 0.15, PRepeat: 0.06,
+	PRange: 0.03, PConnHdr: 0.1, PCCSpell: 0.15, PRepeat: 0.06, PClientCond: 0.05,
 	Statuses:    []int{200, 200, 200, 200, 200, 200, 203, 204, 301, 302, 307, 308, 404, 410, 500, 503, 206},
 	Methods:     []string{"POST", "PUT", "DELETE", "PATCH", "HEAD", "OPTIONS", "PROPFIND", "MKCOL", "FOO", ""}, // "": a hand-built request; net/http sends it as GET, the cache does not know that
 	URLs:        2,
